@@ -51,18 +51,28 @@ def apply_cfg(cfg):
         setattr(pb.PreferredUnits, slot, pb.Unit[un])
 
 
-def build():
-    """scenario objects, explicit quantities only"""
+def build(switch=None):
+    """scenario objects, explicit quantities only; switch() is called between constructions (preferences may change while objects are being built)"""
     import py_ballisticcalc as pb
     U = pb.Unit
+    sw = switch or (lambda: None)
     dm = pb.DragModel(0.223, pb.TableG7, U.Grain(168), U.Inch(0.308), U.Inch(1.282))
+    sw()
     dm2 = pb.DragModelMultiBC([pb.BCPoint(0.22, V=U.FPS(2500)), pb.BCPoint(0.2, Mach=1.0)], pb.TableG7, U.Grain(168), U.Inch(0.308))
+    sw()
     ammo = pb.Ammo(dm, U.FPS(2750), U.Celsius(15), use_powder_sensitivity=True)
     ammo.calc_powder_sens(U.FPS(2700), U.Celsius(0))
+    sw()
     w = pb.Weapon(U.Inch(2), U.Inch(12), U.MOA(3))
+    sw()
     atmo = pb.Atmo(U.Foot(1500), U.InHg(28), U.Fahrenheit(40), 40, U.Fahrenheit(70))
-    shot = pb.Shot(w, ammo, U.Degree(5), U.MOA(1), U.Degree(2), atmo,
-                   [pb.Wind(U.MPH(10), U.Degree(70), U.Yard(50)), pb.Wind(U.MPH(5), U.Degree(200), U.Yard(150))])
+    sw()
+    w1 = pb.Wind(U.MPH(10), U.Degree(70), U.Yard(50))
+    sw()
+    w2 = pb.Wind(U.MPH(5), U.Degree(200), U.Meter(137.16))     # = 150 yd, but a smaller NUMBER than 50 yd when the other is shown in feet/inches
+    sw()
+    shot = pb.Shot(w, ammo, U.Degree(5), U.MOA(1), U.Degree(2), atmo, [w2, w1])
+    sw()
     sights = [pb.Sight('SFP', U.Meter(100), U.Mil(0.1), U.MOA(0.25)), pb.Sight('FFP', None, U.MOA(0.25), U.Mil(0.1)),
               pb.Sight('LWIR', None, U.InchesPer100Yd(0.5), U.CmPer100m(1.0))]
     return {'dm2': dm2, 'ammo': ammo, 'atmo': atmo, 'shot': shot, 'sights': sights, 'calc': pb.Calculator()}
@@ -210,6 +220,8 @@ def params():
         'DragModel.length': ('length', lambda v: q(pb.DragModel(0.2, pb.TableG7, U.Grain(100), U.Inch(0.3), v).length)),
         'DragModelMultiBC.weight': ('weight', lambda v: q(pb.DragModelMultiBC([pb.BCPoint(0.2, Mach=1.0)], pb.TableG7, v, U.Inch(0.3)).BC)),
         'DragModelMultiBC.diameter': ('diameter', lambda v: q(pb.DragModelMultiBC([pb.BCPoint(0.2, Mach=1.0)], pb.TableG7, U.Grain(100), v).BC)),
+        'DragModelMultiBC.length': ('length', lambda v: q(pb.DragModelMultiBC([pb.BCPoint(0.2, Mach=1.0)], pb.TableG7, U.Grain(100), U.Inch(0.3), v).length)),
+        'basicConfig.max_calc_step_size': ('distance', lambda v: (pb.basicConfig(max_calc_step_size=v), q(pb.Calculator()._calc._config.max_calc_step_size_feet), pb.reset_globals())[1]),
         'BCPoint.V': ('velocity', lambda v: q(pb.BCPoint(0.2, V=v).Mach)),
         'fire.range': ('distance', lambda v: q([x.distance for x in calc.fire(base_shot(), v, U.Foot(10)).trajectory])),
         'fire.step': ('distance', lambda v: q([x.distance for x in calc.fire(base_shot(), U.Foot(60), v).trajectory])),
@@ -230,7 +242,7 @@ def params():
     return ps
 
 
-NO_ZERO = {'BCPoint.V', 'Sight.scale_factor', 'Sight.h_click', 'Sight.v_click', 'fire.step', 'Sight.target_distance'}
+NO_ZERO = {'basicConfig.max_calc_step_size', 'BCPoint.V', 'Sight.scale_factor', 'Sight.h_click', 'Sight.v_click', 'fire.step', 'Sight.target_distance'}
 VALUES = [0, 1, -1, 2.5, 100]
 
 
@@ -261,7 +273,25 @@ def bare(cell):
     return {'v': out, 'n': 2, 'states': 1, 'transitions': 2, 'traces': 1, 'nt': cell, 'obs': [v == 0, cfg]}
 
 
-PARTS = {'config': config, 'hist': hist, 'bare': bare}
+def hist_mixed(cell):
+    """preferences change WHILE the objects are being built (every construction alternates between A and B), computation under C"""
+    a, b, c = cell
+    base = baseline()
+    state = {'i': 0}
+
+    def switch():
+        apply_cfg(a if state['i'] % 2 == 0 else b)
+        state['i'] += 1
+    switch()
+    o = build(switch)
+    apply_cfg(c)
+    res = compute(o)
+    apply_cfg('default')
+    return {'v': diff(res, base, f'objects built while preferences alternate between {a} and {b}, computed under {c}')[:4], 'n': 1, 'states': 3, 'transitions': 3,
+            'traces': 1, 'nt': cell}
+
+
+PARTS = {'config': config, 'hist': hist, 'bare': bare, 'hist_mixed': hist_mixed}
 
 
 def single_deviations():
@@ -291,8 +321,9 @@ def plan(tier):
              'Vacuum.temperature', 'Wind.velocity', 'Wind.direction_from', 'Wind.until_distance', 'Shot.look_angle', 'Shot.relative_angle',
              'Shot.cant_angle', 'Weapon.sight_height', 'Weapon.twist', 'Weapon.zero_elevation', 'Ammo.mv', 'Ammo.powder_temp', 'Ammo.get_velocity_for_temp',
              'Ammo.calc_powder_sens.velocity', 'Ammo.calc_powder_sens.temperature', 'DragModel.weight', 'DragModel.diameter', 'DragModel.length',
-             'DragModelMultiBC.weight', 'DragModelMultiBC.diameter', 'BCPoint.V', 'fire.range', 'fire.step', 'zero.distance', 'set_weapon_zero.distance',
+             'DragModelMultiBC.weight', 'DragModelMultiBC.diameter', 'DragModelMultiBC.length', 'basicConfig.max_calc_step_size', 'BCPoint.V', 'fire.range', 'fire.step', 'zero.distance', 'set_weapon_zero.distance',
              'danger.at_range', 'danger.target_height', 'danger.look_angle', 'Sight.scale_factor', 'Sight.h_click', 'Sight.v_click', 'Sight.target_distance',
              'set_global_step']
     bs = [[n, v, c] for n in names for v in VALUES if not (v == 0 and n in NO_ZERO) for c in ('default', 'metric', 'scr1')]
-    return [('config', cfgs), ('hist', hs), ('bare', bs)]
+    hm = [[a, b, c] for a in NAMED for b in NAMED if a != b for c in ('default', 'scr2')]
+    return [('config', cfgs), ('hist', hs), ('bare', bs), ('hist_mixed', hm)]
